@@ -2,9 +2,10 @@
 
 from typing import Any, Dict, List, Optional
 
-from ..exc import ValidationError
+from ..exc import CoercionError, ValidationError, VariablesCoercionError
 from ..lang.ast import Document, OperationDefinition
 from ..schema import Schema
+from .coerce_value import coerce_variable_values
 from .collect_fields import selected_fields
 
 
@@ -74,9 +75,19 @@ class MaxDepthValidationRule:
 
             # Collect from the operation itself so that fragments and inline
             # fragments at the top of the operation are traversed as well.
-            paths = selected_fields(
-                op, fragments=fragments, variables=variables, maxdepth=None,
-            )
+            # @skip / @include are evaluated like execution would: against the
+            # coerced variables, i.e. with the operation's own defaults applied.
+            # An operation whose variables or directive arguments cannot be
+            # coerced cannot be executed either, which is reported there.
+            try:
+                paths = selected_fields(
+                    op,
+                    fragments=fragments,
+                    variables=coerce_variable_values(schema, op, variables),
+                    maxdepth=None,
+                )
+            except (CoercionError, VariablesCoercionError):
+                continue
 
             # Depth is the number of nesting levels below the root fields,
             # a flat operation has a depth of 0.
